@@ -90,6 +90,7 @@ QL = list(DECL)
 BIN = [v for v in QL if DECL[v][0] == 'BINARY']
 SPN = [v for v in QL if DECL[v][0] == 'SPIN']
 DT = ['np.float64', 'np.float32']
+TRACE = len(sys.argv) > 3       # every line is announced before it runs (second run after a crash)
 
 
 class R:
@@ -141,6 +142,10 @@ class Hist:
         s.lines.append(line)
         if site:
             s.site = site
+        if TRACE:
+            if len(s.lines) == 1:
+                print('@@', flush=True)
+            print('#' + json.dumps(line), flush=True)
         try:
             exec(line, s.ns)
         except Exception as e:
@@ -517,12 +522,32 @@ def pyseq_part(ctx):
     if rc == 0 and lines and lines[-1].startswith('RESULT '):
         res = json.loads(lines[-1][7:])
     else:
-        marks = [x for x in lines if x.startswith('@')]
-        last = json.loads(marks[-1][1:]) if marks else []
-        hist = last if last and isinstance(last[0], str) and ('=' in last[0] or '(' in last[0]) else []
-        ctx.fail('crash', 'Python call sequence (cyQM / cyBQM)', 'child process died during a valid history',
-                 f'child exited {rc}; last marker {last!r}; stderr: {err[-400:]}',
-                 repro=REPRO % dict(audit=audit_src(), lines=hist) if hist else None, detail=dict(seed=seed, nrand=nrand))
+        # the interpreter died: run the same sequences again, every line announced before it is executed
+        try:
+            p2 = subprocess.run([PY, '-c', CHILD, str(seed), str(nrand), 'trace'], capture_output=True, text=True,
+                                timeout=ctx.scale(900, 4000), env=dict(os.environ))
+            out2, err2 = p2.stdout, p2.stderr
+        except subprocess.TimeoutExpired:
+            out2, err2 = '', ''
+        hist = []
+        for x in out2.splitlines():
+            if x == '@@':
+                hist = []
+            elif x.startswith('#'):
+                hist.append(json.loads(x[1:]))
+        call = hist[-1] if hist else '?'
+        site = 'Python call sequence (cyQM / cyBQM)'
+        for name in ('update', '__iadd__', '__isub__', 'from_bqm'):
+            if ('.' + name + '(') in call:
+                site = name
+        if ' += ' in call: site = '__iadd__'
+        if ' -= ' in call: site = '__isub__'
+        if call.startswith('n = ') and (' + ' in call or ' - ' in call): site = 'sum / difference of two models'
+        ctx.fail('crash', site, 'interpreter died during a valid call sequence',
+                 f'child exited {rc} while running `{call}`; stderr: {(err2 or err)[-400:]}',
+                 repro=("import subprocess, sys\nsrc = %r\np = subprocess.run([sys.executable, '-c', src], capture_output=True, text=True)\n"
+                        "print(p.stdout[-800:], p.stderr[-800:]); assert p.returncode == 0\n" % (REPRO % dict(audit=audit_src(), lines=hist),)) if hist else None,
+                 detail=dict(seed=seed, nrand=nrand, history=hist[-14:]))
         return
     for k, v in res['ticks'].items():
         ctx.tick(k if k == 'pyseq-lines' else k, v)
